@@ -656,6 +656,14 @@ func (g *Gen) store(st *State, a *Addr, v Val) {
 		elem := fmt.Sprintf("(select (select %s %s) %s)", h, a.Loc, a.Idx)
 		nt := g.updatePath(elem, a.Path, v.Term)
 		g.heapSet(st, a.Heap, fmt.Sprintf("(store %s %s (store (select %s %s) %s %s))", h, a.Loc, h, a.Loc, a.Idx, nt))
+		// the same update in terms of the slice accessor (a consequence of its defining axiom, stated so that a
+		// quantified fact about the elements before the write is instantiated by a question about them after it)
+		if el := strings.TrimPrefix(a.Heap, "HA_"); el != a.Heap {
+			if _, ok := g.sorts.sliceEl["Slice_"+el]; ok {
+				h2 := g.heapGet(st, a.Heap)
+				g.assume(fmt.Sprintf("(forall ((s!w Slice_%[1]s) (i!w Int)) (! (= (sget_Slice_%[1]s %[2]s s!w i!w) (ite (and (= (arr_Slice_%[1]s s!w) %[4]s) (= (+ (off_Slice_%[1]s s!w) i!w) %[5]s)) %[6]s (sget_Slice_%[1]s %[3]s s!w i!w))) :pattern ((sget_Slice_%[1]s %[2]s s!w i!w))))", el, h2, h, a.Loc, a.Idx, nt))
+			}
+		}
 	case a.PHeap != "":
 		if v.Term == "" {
 			g.fail("store of a static pointer into a pointer heap")
